@@ -11,6 +11,7 @@ RULE = ("Hypothesis-generated one-sided histories (user ops create/write/rename 
         "settles, hazard-free envelope).  Non-trivial = >=3 user ops incl. at least one rename/delete/overwrite and "
         ">=1 engine step between two user ops; distinct = distinct trace digest.")
 ASSUMPTIONS = [
+    "part starved: an edit is taken in, the user continues on the same objects (name take-over / move+edit), then only the sync loop runs with time passing, then the other side's intake, and the origin's remaining events last; same oracles",
     "mock providers (id- and path-style, case-sensitive) stand in for real accounts",
     "hazards exclude by construction: PATH_REUSE, DIRMOVE_ISOLATED, DIRMOVE_TOMB (open known findings, see known_findings.json)",
     "virtual clock; quiet decided by a 400-round step bound, not wall-clock",
@@ -18,7 +19,9 @@ ASSUMPTIONS = [
 
 
 def budget(tier):
-    return {"workers": 16, "examples": 400 if tier == "quick" else 6000}
+    q = tier == "quick"
+    return [{"workers": 16, "examples": 400 if q else 6000},
+            {"part": "starved", "workers": 16, "examples": 60 if q else 2000}]
 
 
 def gen(d, tier):
@@ -76,3 +79,45 @@ def run(trace):
             from ..core import invalid
             return invalid("user op on the non-origin side")
     return Run(trace).execute()
+
+
+# ----------------------------------------------------------------------------- part: starved origin intake
+# The engine is told about an edit, then the user goes on (a name take-over that involves the edited file, or a move
+# plus edit), and for a while only the sync loop runs -- with time passing -- before the other side's echoes and,
+# last of all, the origin's own remaining events are taken in.  Same oracles as the main part.
+def gen_starved(d, tier):
+    from ..gen import emit_base, _try, step_act
+    from ..model import World
+    cfg = draw_cfg(d, allow_ci=False)
+    origin = d.int(0, 1)
+    cfg["origin"] = origin
+    world = World(path_style=(cfg["L"] == "path", cfg["R"] == "path"))
+    world.tempo = d.choice((0.02, 0.3))
+    acts = []
+    emit_base(d, world, acts, origin)
+    mine, other = ("EL", "ER") if origin == 0 else ("ER", "EL")
+    files = world.side[origin].files()
+    x = d.choice(files)
+    if not _try(world, acts, origin, ("write", x, world.new_content())):
+        return {"cfg": cfg, "acts": acts + [["settle"]]}
+    acts.append(["step", mine]); world.note_step(mine)
+    news = world.new_paths(origin)
+    victims = [f for f in files if f != x]
+    if victims and news and d.chance(3, 4):
+        v = d.choice(victims)
+        if _try(world, acts, origin, ("rename", v, d.choice(news))):
+            _try(world, acts, origin, ("rename", x, v))
+    elif news:
+        n = d.choice(news)
+        if _try(world, acts, origin, ("rename", x, n)):
+            _try(world, acts, origin, ("write", n, world.new_content()))
+    for _ in range(d.int(2, 10)):
+        acts.append(["step", "S", world.tempo])
+    acts.append(["step", other]); world.note_step(other)
+    for _ in range(d.int(1, 6)):
+        acts.append(["step", "S", world.tempo])
+    acts.append(["settle"])
+    return {"cfg": cfg, "acts": acts, "meta": {"excluded": dict(world.excluded)}}
+
+
+PARTS = {"starved": (gen_starved, run)}
